@@ -17,7 +17,9 @@ CLAIMS = {
         '1-3 open files on reopened ISO/Joliet/Rock Ridge and UDF images and on unwritten images are executed on the '
         'real PyCdlibIO, on the Coq model by vm_compute, and on the specification; whole-file extraction with '
         'block sizes 1/7/2048/8192 is compared with the supplied content.'),
-  note=('Trusted: Coq kernel + vm_compute; the hand model and the harness; Python file-object semantics. '
+  note=('The model IS the source: PyCdlibIO.seek / readall / read / readinto are TRANSLATED on every run (Gen/GenIO.v; self._fp.seek = the shared file position, self._fp.read = PyIO.py_fread) and '
+        'C16_model_is_the_source proves Stream.do_seek/do_readall/do_read/do_readinto (repaired code) equal to them; dropping the seek before a read breaks the proof obligation (demonstrated).  '
+        'Trusted: Coq kernel + vm_compute; the translator; the harness; Python file-object semantics. '
         'Not modelled: short reads on truncated images, PyCdlibIO over a boot-info-table file, manage_fp=True (own fp per open).'),
   technique='Coq refinement proof (stream model -> in-memory stream spec) + model/implementation differential run',
   design='§8.16'), 'C19': dict(
@@ -79,7 +81,12 @@ CLAIMS.update({
         'well-formedness across any number of generations.  Tie: histories cut into 1-4 (thorough 1-8) generations at random points; every '
         'generation edits the image the previous one wrote; the final API view is compared with the specification of the whole history '
         'evaluated in Coq.'),
-  note=('Reopen semantics in the specification: zero-length contents lose cross-namespace link identity on disc (stated in FsSpec.Reopen). '
+  note=('Added Model/Parse.v: pycdlib\'s OWN parser of the directory area (_walk_directories / DirectoryRecord.parse / the Inode table built on open), statement by statement, '
+        'composed with the writer model Model/Master.v: for EVERY well-formed plain ISO9660 tree the opened object IS the object graph that wrote the image (C02_open_gives_the_object_graph_that_wrote, '
+        'also from any larger medium), no raise statement is reached (C02_open_rejects_nothing_valid); for ANY image the parser accepts two file records share an Inode iff both have data and the same '
+        'extent, every empty file gets its own Inode (C02_open_shares_inodes_iff_same_extent), truncated files carry the bytes that are left (C02_open_of_a_truncated_image_lengths; the code before fix '
+        '10cfb30 is refuted); tied by parseleaf.py (the model parser run on the bytes the library wrote vs the object the library opened; open+write = identity).  '
+        'Reopen semantics in the specification: zero-length contents lose cross-namespace link identity on disc (stated in FsSpec.Reopen). '
         'No foreign-image corpus exists offline: only images pycdlib wrote are edited.  Trusted as for C01.'),
   technique='Coq specification with frame theorems + multi-generation differential run against the specification evaluated in Coq',
   design='§8.2'),
@@ -150,7 +157,8 @@ CLAIMS.update({
         'PathTableRecord.record_*_endian on every record of generated images plus extreme field values.  The whole-image fixpoint for every structure the '
         'library knows (Rock Ridge incl. version inference, Joliet, XA, El Torito, UDF, isohybrid MBR/GPT/APM) is evaluated directly: open+write twice, '
         'bytes compared except volume-modification dates, on every generated image incl. boundary recipes and SL-boundary symlinks.'),
-  note=('Added model VolDesc.v (PVD / Joliet SVD / enhanced VD / terminator / boot record codecs, 17-byte dates, both-endian discipline, space counters): C05_vd_roundtrip (identity except the modification date that record() stamps), C05_vd_parse_rejects_altered_half; tied by vdleaf.py on the descriptor sectors of generated images. Rock Ridge / UDF / El Torito / hybrid parse-record pairs are NOT modelled in Coq; for them the fixpoint is sampled.  Trusted: Coq kernel + vm_compute, '
+  note=('Added Model/Parse.v + Model/Master.v: for EVERY well-formed plain ISO9660 tree, mastering the tree of the opened object reproduces the directory area byte for byte with the same layout '
+        '(C05_remaster_fixpoint_every_tree) and write_fp of the opened, unedited object gives the image back (C05_reopen_write_fixpoint_every_tree); tied by parseleaf.py.  Added model VolDesc.v (PVD / Joliet SVD / enhanced VD / terminator / boot record codecs, 17-byte dates, both-endian discipline, space counters): C05_vd_roundtrip (identity except the modification date that record() stamps), C05_vd_parse_rejects_altered_half; tied by vdleaf.py on the descriptor sectors of generated images. Rock Ridge / UDF / El Torito / hybrid parse-record pairs are NOT modelled in Coq; for them the fixpoint is sampled.  Trusted: Coq kernel + vm_compute, '
         'translator (FMT layouts), hand model tied by leaf run, pinned time.time.'),
   technique='Coq round-trip proofs for record codecs over translated layouts + byte-level leaf run + open/write fixpoint on generated images',
   design='§8.5'),
@@ -174,7 +182,7 @@ CLAIMS.update({
         'models vs the real methods on every run (targets around every record/component boundary).  The property itself on generated Rock Ridge images (1.09/1.10/1.12 x XA, long '
         'names, CE gaps of exactly the needed size +-1, trees deeper than 8): an independent SUSP/RRIP reader recovers names, types, PX mode types, link counts, targets, the logical '
         'tree; entry lengths, CE/CL/PL pointers.'),
-  note=('Added model RRPlace.v (which System Use entries RockRidge.new creates and where: record vs continuation area; C08_placement_fits_the_record, C08_ce_entry_length_is_the_area, C08_placed_name_reads_back, C08_no_continuation_iff_first_fit, C08_placement_total for ALL inputs; tied by rrplaceleaf.py on a boundary grid incl. every record length 120..257 with every relocation flag).  The entry lengths all these models use are the length() static methods of rockridge.py TRANSLATED on every run (Gen/GenRR.v): C08_entry_lengths_are_the_source.  Continuation entries over whole edit histories (allocation, sharing, release with the last owner): Model/AccountRR.v, theorems in C04.  Added models: Nlink.v (directory link counts: 2 + #subdirs on the record, its dot and the children\'s dotdot after EVERY add/rm_directory history incl. refused edits, C08_nlink; depth <= 7, no relocation) and RREntries.v/RRWalk.v (every System Use entry codec, the walker and the recorder: entry round trips, self-describing lengths, C08_area_walk for any entry list; the two known symlink findings as _refuted theorems); tied by nlinkleaf.py (PX counts of the record objects) and rrleaf.py (System Use areas of generated images).  Relocation (CL/PL/RE), link counts under relocation and _assign_entries placement are decided on sampled images by the reader, not by theorems. Link counts are not compared on images with a relocated directory.'),
+  note=('Added model RRPlace.v (which System Use entries RockRidge.new creates and where: record vs continuation area; C08_placement_fits_the_record, C08_ce_entry_length_is_the_area, C08_placed_name_reads_back, C08_no_continuation_iff_first_fit, C08_placement_total for ALL inputs; tied by rrplaceleaf.py on a boundary grid incl. every record length 120..257 with every relocation flag).  The entry lengths all these models use are the length() static methods of rockridge.py TRANSLATED on every run (Gen/GenRR.v): C08_entry_lengths_are_the_source.  Continuation entries over whole edit histories (allocation, sharing, release with the last owner): Model/AccountRR.v, theorems in C04.  Added models: Nlink.v (directory link counts: 2 + #subdirs on the record, its dot and the children\'s dotdot after EVERY add/rm_directory history incl. refused edits, C08_nlink; depth <= 7, no relocation) and RREntries.v/RRWalk.v (every System Use entry codec, the walker and the recorder: entry round trips, self-describing lengths, C08_area_walk for any entry list; the two known symlink findings as _refuted theorems); tied by nlinkleaf.py (PX counts of the record objects) and rrleaf.py (System Use areas of generated images).  Relocation: Model/Reloc.v (RR_MOVED, CL placeholders, RE, PL as a state machine with the physical layout and an isofs-style reader): for EVERY accepted history the reader sees exactly the logical tree the edits imply (C08_relocation_reader_sees_the_logical_tree), every CL/PL/RE link lands where it should and is unique (C08_relocation_links_consistent), refused edits change nothing; what the recorded link counts are is proved, and where they deviate from 2 + logical sub-directories is stated as refuted theorems (root counts RR_MOVED; `..` of a relocated directory carries RR_MOVED\'s count; physical depth can exceed 8) -- link counts are not compared on images with a relocation directory; tied by relocleaf.py after EVERY operation incl. reopen and the written image.  Relocation together with continuation areas, Joliet or UDF is decided on sampled images by the reader.'),
   technique='Coq round-trip proofs for NM/SL splitting and CE allocator invariant + leaf runs + independent SUSP/RRIP reader on generated images',
   design='§8.8'),
  'C09': dict(category='proof',
@@ -199,7 +207,7 @@ CLAIMS.update({
         'rm_eltorito removes exactly the catalog names and boot references.  Translation validated against the Python method on every run.  The property itself on generated bootable images (1-6 entries, '
         'platform ids, load sizes, boot info tables, multi-sector boot files followed by data, edits after add_eltorito, reopen in the middle): boot record at 17, validation entry, every entry of the header '
         'chain vs the boot file\'s sector and bytes, boot-info-table fields as stored and as read back, catalog readable under all its names; add+rm_eltorito gives byte-identically the image without El Torito.'),
-  note='Model/Eltorito.v (entries, section headers, catalog record/parse state machine, add_section, the reader loop, boot info table): C11_catalog_extent_roundtrip for every buildable catalog incl. 31 sections and non-bootable entries, entry totality, checksum over the file\'s own bytes; four _refuted witnesses of the first model were repaired in /repo; tied by etleaf.py.  Pointer assignment (load RBA = boot file sector) is not modelled in Coq (sampled). floppy/hdemul media are generated at leaf level only.',
+  note='Added Model/AccountBoot.v (El Torito over whole EDIT HISTORIES on top of the hard-link accounting model; plain ISO9660 level 3): for every history the declared size is the end of the layout, every catalog entry points at the extent of a live, NON-EMPTY boot file of its own -- also for boot files whose names were removed -- (C11_catalog_points_at_files, C11_load_rba_is_the_files_own_extent), boot info tables sit only on boot files, rm_eltorito removes exactly the catalog (C11_rm_eltorito_exact_after_every_history), refused calls change nothing except the known first-call late refusals (C11_late_refusal_only_on_first_call); the code before fixes d8f44b3/6a3f4a5 is refuted; tied by accountbootleaf.py after EVERY operation (counters, catalog extent, every load_rba, written image reopened and the catalog followed).  Model/Eltorito.v (entries, section headers, catalog record/parse state machine, add_section, the reader loop, boot info table): C11_catalog_extent_roundtrip for every buildable catalog incl. 31 sections and non-bootable entries, entry totality, checksum over the file\'s own bytes; four _refuted witnesses of the first model were repaired in /repo; tied by etleaf.py.  Pointer assignment (load RBA = boot file sector) is not modelled in Coq (sampled). floppy/hdemul media are generated at leaf level only.',
   technique='Coq proof over translated validation checksum + independent reader and byte comparison on generated bootable images',
   design='§8.11'),
  'C12': dict(category='proof',
@@ -248,7 +256,7 @@ CLAIMS.update({
         'property itself on generated images (exactly-filled and multi-sector directories, several names per content in ISO9660/Joliet/UDF, XA, Rock Ridge): bytes of the backing file before/after diffed and '
         'every changed byte attributed by the independent reader to the file\'s sectors, its own records / file entries or a volume descriptor; every name re-read by the reader and through the API; unrelated '
         'files re-read; other sector counts and directory targets must be refused leaving the file byte-identical.'),
-  note='The write list itself (which records of the inode are rewritten, UDF entry update) is checked on sampled images, not modelled.  Boot files are excluded (raises after writing: known defect).',
+  note='Added Model/InPlace.v: modify_file_in_place as a function from the opened image and object graph to the ordered list of writes (copy_data / zero_pad, every linked directory record and UDF File Entry re-recorded, volume descriptors rewritten): for EVERY well-formed state C17_frame_only_allowed_bytes_change (allowed = the data sectors, bytes 10..17 of each linked record, the length/checksum fields of each linked File Entry, the modification date of the volume descriptors), C17_data_region_after_the_call, C17_rewritten_directory_record_decodes / _file_entry_decodes, C17_accepted_iff_same_sector_count, C17_refused_call_writes_nothing (every integer length; the code before fix 0411073 is refuted), C17_state_stays_well_formed_for_the_next_call; tied by inplaceleaf.py (every write issued by the real call is logged and compared with the model\'s list).  Stated, not required by the property: after a shrink the old bytes behind the new data stay (C17_zero_padding_after_a_shrink_refuted).',
   technique='Coq position/disjointness proofs over the packing model + byte-diff attribution on generated images',
   design='§8.17'),
  'C20': dict(category='proof',
